@@ -14,7 +14,7 @@ TRUSTED_BASE = [
 
 # components whose real code keeps package-level state (marshaller pools): one case at a time per
 # process; the check script shards them over processes instead of goroutines
-SERIAL = {"pipeline": 8, "pipefault": 8, "marshal": 4, "syscorr": 8}
+SERIAL = {"pipeline": 8, "pipefault": 8, "marshal": 4, "syscorr": 8, "batcherload": 1}
 
 PROPS = {
     "C01": {
@@ -25,7 +25,8 @@ PROPS = {
         "required_theorems": ["PgBifrost.Props.C01.ledger_emit_safe_partial", "PgBifrost.Props.C01.ledger_never_panics_partial",
                               "PgBifrost.Props.C01.ledger_emit_unsafe_witness", "PgBifrost.Props.C01.sys_ledger_trace_contract",
                               "PgBifrost.Props.C01.sys_tracker_never_panics", "PgBifrost.Props.C01.sys_ack_safe",
-                              "PgBifrost.Props.C01.sys_crash_restart_no_loss", "PgBifrost.Props.C01.sys_nostale_needs_schedule_witness"],
+                              "PgBifrost.Props.C01.sys_crash_restart_no_loss", "PgBifrost.Props.C01.sys_nostale_needs_schedule_witness",
+                              "PgBifrost.Props.C01.runner_wiring_as_modelled", "PgBifrost.Props.C01.flush_position_safe"],
         "partial": "full statement false on the unchanged tree (finding F1): the ledger theorem is proved under NoStale, the "
                    "witness theorem proves the full one false. Layers: L1 ledger (theorem), L2 batcher contract (C04 "
                    "seen_before_dispatch*, seen_log_exact, txns_global_accounting), L3 workers (C11-C14), L4 client (C03); the "
@@ -73,8 +74,8 @@ PROPS = {
     },
     "C05": {
         "modules": ["PgBifrost.Props.C05"],
-        "components": ["batcher", "crc", "pipeline"],
-        "required_theorems": ["PgBifrost.Props.C05.in_batch_order", "PgBifrost.Props.C05.partition_routing_fixed",
+        "components": ["batcher", "crc", "pipeline", "kinesis"],
+        "required_theorems": ["PgBifrost.Props.C05.kinesis_calls_keep_batch_order", "PgBifrost.Props.C05.in_batch_order", "PgBifrost.Props.C05.partition_routing_fixed",
                               "PgBifrost.Props.C05.per_key_submission_order", "PgBifrost.Props.C05.single_worker_total_order"],
         "partial": "proved up to the worker's input channel (order of batches handed to worker w); that a worker is sequential and its "
                    "channel FIFO is the Go runtime (modelled); submission order at the sink is observed by the pipeline monitor perKeyOrder",
@@ -88,7 +89,7 @@ PROPS = {
         "modules": ["PgBifrost.Props.C07"],
         "components": ["client", "connmgr"],
         "required_theorems": ["PgBifrost.Props.C07.stamp_attribution", "PgBifrost.Props.C07.keys_unique",
-                              "PgBifrost.Props.C07.one_commit_per_key", "PgBifrost.Props.C07.begin_without_commit"],
+                              "PgBifrost.Props.C07.one_commit_per_key", "PgBifrost.Props.C07.one_commit_per_key_full", "PgBifrost.Props.C07.begin_without_commit"],
         "assumptions": ["PG-stream grammar (DESIGN §3) as decidable hypothesis pgGrammar on the history",
                         "clock readings strictly increasing across BEGINs of the same transaction id; ids contain no '-'"],
     },
@@ -174,7 +175,7 @@ PROPS = {
     },
     "C16": {
         "modules": ["PgBifrost.Props.C16"],
-        "components": ["batcher", "batch"],
+        "components": ["batcher", "batch", "batcherload"],
         "required_theorems": ["PgBifrost.Props.C16.tick_flushes_due", "PgBifrost.Props.C16.tick_pressure",
                               "PgBifrost.Props.C16.tick_pressure_order"],
         "partial": "the tick DECISION is proved for every open set, clock reading and Go map/heap order (validTick); that a tick is "
@@ -183,8 +184,11 @@ PROPS = {
     },
     "C17": {
         "modules": ["PgBifrost.Props.C17"],
-        "components": ["pipefault", "kinesis", "s3", "kafka", "rabbit"],
-        "required_theorems": ["PgBifrost.Props.C17.stage_death_cancels", "PgBifrost.Props.C17.stages_good",
+        "components": ["pipefault", "kinesis", "s3", "kafka", "rabbit", "retrypolicy", "runner"],
+        "required_theorems": ["PgBifrost.Props.C17.single_shutdown_handler", "PgBifrost.Props.C17.runner_hands_the_handler_to_every_stage",
+                              "PgBifrost.Props.C17.runner_starts_every_stage", "PgBifrost.Props.C17.retry_budget_gives_up", "PgBifrost.Props.C17.retry_policies_give_up",
+                              "PgBifrost.Props.C17.retry_policies_complete", "PgBifrost.Props.C17.retry_unset_stop_never_gives_up",
+                              "PgBifrost.Props.C17.stage_death_cancels", "PgBifrost.Props.C17.stages_good",
                               "PgBifrost.Props.C17.stages_complete", "PgBifrost.Props.C17.pg_bifrost_fail_stop",
                               "PgBifrost.Props.C17.no_half_dead", "PgBifrost.Props.C17.main_waits_then_exits"],
         "partial": "proved in a process model instantiated with structural facts regenerated from every stage's source "
